@@ -21,6 +21,7 @@ package hessian
 import (
 	"bytes"
 	"io"
+	"math"
 	"reflect"
 	"unsafe"
 )
@@ -121,7 +122,11 @@ func (e *Encoder) WriteData(data interface{}) (int, error) {
 		value := int32(v.Int())
 		return e.writeInt(value)
 	case reflect.Int: // as int
-		value := int32(v.Int())
+		i64 := v.Int()
+		if i64 < math.MinInt32 || i64 > math.MaxInt32 {
+			return 0, newCodecError("WriteData", "int value %d overflows the 32-bit hessian int", i64)
+		}
+		value := int32(i64)
 		return e.writeInt(value)
 	case reflect.Uint8: // as int
 		value := int32(v.Uint())
